@@ -217,7 +217,12 @@ int main(int argc, char *argv[])
    * the user know there was a problem, so we flush the data
    * ourselves.
    */
-  if (0 != fflush(stdout))
+  /* An earlier write may already have failed (putchar() of the last
+   * byte of a full buffer, say), in which case there is nothing left
+   * to flush and fflush() succeeds: the stream's error flag is what
+   * remembers the failure.
+   */
+  if (0 != fflush(stdout) || ferror(stdout))
     {
       perror("stdout");
       exitval = 1;
